@@ -14,7 +14,7 @@ from .. import windows, model, progs
 
 rs = bootstrap()
 
-KEYS = ['mod:%d', 'kt:%d', 'ks:%d', 'kbig:%d', 'kf:%d', 'kmix:%d', 'kneg:%d', 'kmers:%d', 'ktneg:%d']
+KEYS = ['mod:%d', 'kt:%d', 'ks:%d', 'kbig:%d', 'kf:%d', 'kmix:%d', 'kneg:%d', 'kmers:%d', 'ktneg:%d', 'knp:%d', 'kcent:%d']
 
 
 def expected_groups(xs, keyf):
@@ -26,13 +26,13 @@ class C04(Check):
     LEVEL = 'exploration'
     BUDGET = {'quick': 30, 'thorough': 240}
     RULE = ('case = (key mapper, stream, parent context, inner pipeline). Key mappers return values that are equal but not identical objects: 1-tuples built per item, '
-            'ints > 2^40 computed at run time, float(i%k), strings built with %, and int for even / float for odd items (1 == 1.0: same group), and DIFFERENT keys whose hashes collide (-1 / -2, multiples of 2**61-1, tuples of those); 1..200 distinct keys (every 60th case 300 or 1000 keys); '
+            'ints > 2^40 computed at run time, float(i%k), strings built with %, and int for even / float for odd items (1 == 1.0: same group), numpy.int64 keys, ints of mixed sign, and DIFFERENT keys whose hashes collide (-1 / -2, multiples of 2**61-1, tuples of those); 1..200 distinct keys (every 60th case 300 or 1000 keys); '
             '0..400 items; group_by at top level, nested in group_by, in roll (key slots reused by successive windows: w != s and w == s), in split, group_by>roll; inner pipeline '
             'to_list (groups flushed at completion) or a per-item map (output in source order). non-trivial = some key lifetime has >= 2 groups each with >= 2 items; '
             'distinct = hash of the case')
     ASSUMPTIONS = ['keys are hashable and == is an equivalence on them (NaN / unhashable keys are outside the statement)']
     ANCHORS = ['rxsci/operators/group_by.py', 'rxsci/operators/multiplex.py', 'rxsci/state/memory_store.py']
-    REQUIRED_TAGS = ['top', 'group', 'roll', 'roll_eq', 'split', 'key=kt', 'key=ks', 'key=kbig', 'key=kf', 'key=kmix', 'key=kneg', 'key=kmers', 'key=ktneg', 'per-item', 'to_list',
+    REQUIRED_TAGS = ['top', 'group', 'roll', 'roll_eq', 'split', 'key=kt', 'key=ks', 'key=kbig', 'key=kf', 'key=kmix', 'key=kneg', 'key=kmers', 'key=ktneg', 'key=knp', 'key=kcent', 'per-item', 'to_list',
                      'many-keys', 'empty', 'over-256-keys']
     REQUIRED_OBSERVED = ['child_lifetimes_checked', 'parent_lifetimes_checked', 'groups_flushed_at_completion']
 
